@@ -88,4 +88,40 @@ def allEntries : List String := ["LoadYAML", "LoadMetadata", "LoadWithoutEval", 
 theorem reach_matrix : ∀ e ∈ allEntries, ∀ f ∈ mentioned canon, reach canon e f = expected e f := by
   decide +kernel
 
+/-! ### every `noEval` guard in the table is load-bearing
+
+  The model abstracts the VALUE of a field away (a data condition is treated as satisfiable), so a guard that
+  is weakened for some shapes of the value only — e.g. `if quoted || isBacktick && eval` in parseParamValue
+  (seeded mutant C19-3) — reaches the table as a site without its `noEval` requirement. These lemmas state
+  that for each guarded effect site and each guarded call edge of the canonical table, dropping that one
+  requirement makes some non-evaluating entry point reach an effect: no guard is redundant, so such a change
+  can never leave `C19_full` provable. (The concrete failing input is the canary stream's job.) -/
+
+def unguardSite (T : Tables) (i : Nat) : Tables :=
+  { T with sites := T.sites.set i ((T.sites.getD i []).set 4 "-") }
+
+def unguardEdge (T : Tables) (i : Nat) : Tables :=
+  { T with edges := T.edges.set i ((T.edges.getD i []).set 2 "-") }
+
+def leaks (T : Tables) : Bool :=
+  nonEvaluatingEntries.any (fun e => (mentioned T).any (fun f => !(reach T e f).isEmpty))
+
+theorem canon_does_not_leak : leaks canon = false := by decide +kernel
+
+theorem every_site_guard_needed :
+    ∀ i ∈ List.range canon.sites.length,
+      (isEffectRow (canon.sites.getD i []) && col (canon.sites.getD i []) 4 == "F") = true → leaks (unguardSite canon i) = true := by
+  decide +kernel
+
+/-- in particular the command substitution of parameter values (site of the seeded mutant C19-3) -/
+theorem parseParamValue_guard_needed :
+    ∀ i ∈ List.range canon.sites.length, col (canon.sites.getD i []) 0 = "parseParamValue" → col (canon.sites.getD i []) 3 = "exec" →
+      (⟨"parseParamValue", "exec.Command", "0"⟩ : Effect) ∈ reach (unguardSite canon i) "LoadMetadata" "Params" := by
+  decide +kernel
+
+theorem every_edge_guard_needed :
+    ∀ i ∈ List.range canon.edges.length,
+      (col (canon.edges.getD i []) 2 == "F") = true → leaks (unguardEdge canon i) = true := by
+  decide +kernel
+
 end BdModel.Load.Effects
